@@ -1,7 +1,10 @@
 package rules
 
 import (
+	"fmt"
 	"strings"
+	"xvc/load"
+	ssa "xvc/xssa"
 
 	"xvc/q"
 )
@@ -107,8 +110,7 @@ func c08(c *q.Ctx) {
 	if fb != nil {
 		c.StoreIs(fb, "InternalBlock.Blockid", "ledger.MakeBlockID(local<InternalBlock>)#0", 1, "the id is computed by the function the verifier uses")
 		c.StoreIs(fb, "InternalBlock.Sign", "i:CryptoClient.SignECDSA(p0.cryptoClient,p3,ledger.MakeBlockID(local<InternalBlock>)#0)#0", 1, "the signature is over the id that was stored")
-		c.StoreIs(fb, "InternalBlock.MerkleRoot", "local<InternalBlock>.MerkleTree[last]", 1, "the root is the last node of the block's tree")
-		c.FieldStoreUnder(fb, "InternalBlock.MerkleTree", "ledger.MakeMerkleTree(p1)", []q.Cond{{Canon: "p10", Sense: true}}, "a signed block's tree is the merkle tree over the packed transactions")
+		merkleOfFormattedBlock(c, fb)
 		c.StoreIs(fb, "InternalBlock.Transactions", "p1", 1, "the body is the list the tree was built from")
 		c.StoreIs(fb, "InternalBlock.Proposer", "p2", 1, "")
 		c.StoreIs(fb, "InternalBlock.Pubkey", "i:CryptoClient.GetEcdsaPublicKeyJsonFormatStr(p0.cryptoClient,p3)#0", 1, "the public half of the signing key")
@@ -149,4 +151,71 @@ func blockAgentHashes(c *q.Ctx) {
 	}
 	c.ReturnIs(mb, 0, []string{"nil", "ledger.MakeBlockID(p0.blk)#0"}, "the id handed to the consensus is computed from the header, on every call")
 	c.Gate(mb, "ledger::MakeBlockID", q.ToSuccess(), q.Opt{})
+}
+
+// merkleOfFormattedBlock: the root stored in a formatted block is the last node of the tree stored in the same block,
+// and on the signing path that tree is MakeMerkleTree over the packed transactions - whether the tree is stored per
+// branch or merged in a local first.
+func merkleOfFormattedBlock(c *q.Ctx, fb *ssa.Function) {
+	name := load.QualName(fb)
+	var trees, roots []*ssa.Store
+	for _, b := range fb.Blocks {
+		for _, ins := range b.Instrs {
+			st, ok := ins.(*ssa.Store)
+			if !ok {
+				continue
+			}
+			fa, ok := st.Addr.(*ssa.FieldAddr)
+			if !ok {
+				continue
+			}
+			switch q.TypeField(fa) {
+			case "InternalBlock.MerkleTree":
+				trees = append(trees, st)
+			case "InternalBlock.MerkleRoot":
+				roots = append(roots, st)
+			}
+		}
+	}
+	c.Sites += len(trees) + len(roots)
+	if len(trees) == 0 || len(roots) != 1 {
+		c.Fail("floor", name, "K11: stores of the merkle tree (>= 1) and of the merkle root (1)", "-", fmt.Sprintf("found %d / %d", len(trees), len(roots)))
+		return
+	}
+	// root = last node of the stored tree
+	rv := q.CanonD(roots[0].Val, 9)
+	okRoot := rv == "local<InternalBlock>.MerkleTree[last]"
+	for _, t := range trees {
+		if rv == q.CanonD(t.Val, 9)+"[last]" {
+			okRoot = true
+		}
+	}
+	c.Check(okRoot, "K11", name, "the merkle root is the last node of the tree stored in the block", c.At(roots[0]), "stored value is `"+rv+"`")
+	// on the signing path the tree is MakeMerkleTree(p1)
+	signed := q.Cond{Canon: "p10", Sense: true}
+	found, bad := false, ""
+	for _, t := range trees {
+		type alt struct {
+			v    ssa.Value
+			from *ssa.BasicBlock
+		}
+		alts := []alt{{t.Val, t.Block()}}
+		if ph, ok := t.Val.(*ssa.Phi); ok {
+			alts = nil
+			for i, e := range ph.Edges {
+				alts = append(alts, alt{e, ph.Block().Preds[i]})
+			}
+		}
+		for _, a := range alts {
+			underSign := q.HasGuard(a.from, signed) || q.HasGuard(t.Block(), signed)
+			isReal := q.CanonD(a.v, 9) == "ledger.MakeMerkleTree(p1)"
+			if underSign && isReal {
+				found = true
+			}
+			if underSign && !isReal {
+				bad = "on the signing path the stored tree is `" + q.CanonD(a.v, 9) + "`"
+			}
+		}
+	}
+	c.Check(found && bad == "", "K5", name, "a signed block's tree is the merkle tree over the packed transactions", c.At(trees[0]), bad)
 }
